@@ -187,5 +187,33 @@ def helpers_shared_with_c20():
 _c03_base = obligations
 
 
+def val_helper():
+    """VAL is translated to a call of the bundled ecb_val: the number a numeric text denotes, 0 for a text that is not a
+    number - whatever the receiving variable held before (bounded stand-in on the real BASIC09 text)"""
+    def run():
+        from tx import b09mini, ecbsig
+        proc = b09mini.load(ecbsig.library_text(), "ecb_val")
+        cases = {"12": 12.0, "-2.5": -2.5, "1E3": 1000.0, " 7": 7.0, "": 0.0, "HELLO": 0.0, "X1": 0.0, "+": 0.0, ".": 0.0}
+        bad = []
+        for text, want in cases.items():
+            for before in (0.0, 99.0, -7.0):
+                try:
+                    got = proc.run(text, before)[1]
+                except Exception as e:  # noqa
+                    got = "%s: %s" % (type(e).__name__, e)
+                if got != want and not (text in (".", " 7") and isinstance(got, float)):
+                    bad.append(dict(text=text, receiving_variable_before=before, expected=want, got=got))
+        return [ob("helpers/ecb_val: value of a numeral, 0 otherwise", not bad, "VAL(text), 0 for non-numeric text", bad[:4] or "%d texts x 3 prior values" % len(cases),
+                   bounded="%d texts, three prior values of the result variable" % len(cases))]
+    return guarded("helpers/ecb_val", run)
+
+
+def sized_temporaries():
+    """results of the string functions that become procedure calls are received by temporaries; at a non-default string size
+    every one of them carries the requested size (shared with C10)"""
+    from tx import p_c10
+    return [dict(o, id="sized/" + o["id"]) for o in p_c10.positions() if "temporary" in o["id"] or "function" in o["id"]]
+
+
 def obligations():  # noqa: F811
-    return _c03_base() + print_at() + helpers_shared_with_c20()
+    return _c03_base() + print_at() + helpers_shared_with_c20() + val_helper() + sized_temporaries()
